@@ -16,6 +16,7 @@ Reading guide
 import EPV.Lemmas.ArithFloat
 import EPV.Lemmas.ArithCtx
 import EPV.Lemmas.ArithV10
+import EPV.Lemmas.ArithIeee
 namespace EPV.C06
 open EPV.Arith EPV.FOArith
 
@@ -110,31 +111,22 @@ theorem div_double_eq_spec (R : Rounding) (v : Ver) (x y : Dbl) (hx : x.wf) :
   div_dbl_eq_spec R v x y hx
 
 /-- xs:double `idiv`: FOAR0001 for a ±0 divisor, FOAR0002 for NaN operands / infinite dividend, 0 for
-an infinite divisor, otherwise the truncated exact quotient (model assumption: Python's float `//`
-is the exact floor, true for |quotient| < 2^51). -/
+an infinite divisor, otherwise the truncated exact quotient of the two doubles, whatever its size (the code
+computes it with exact fractions since fix-c06-3). -/
 theorem idiv_double_eq_spec (R : Rounding) (x y : Dbl) :
     (opIdiv R (.dbl x) (.dbl y)).map absNum = specBin R .idiv (.double x) (.double y) :=
   idiv_dbl_eq_spec R x y
 
-/-- PARTIAL (known finding F06x): xs:double `mod` = F&O / IEEE fmod (exact remainder of the truncating
-division, NaN for an infinite dividend or zero divisor, the dividend for an infinite divisor, signed
-zeros) — except that the XPath 1.0 parser returns NaN for `finite mod ±INF`.
-Full statement (false on the tree): the same without `hk`. -/
-theorem mod_double_eq_spec_partial (R : Rounding) (v : Ver) (x y : Dbl)
-    (hk : trigF06x R v .mod (.dbl x) (.dbl y) = false) :
+/-- xs:double `mod` = F&O / IEEE fmod (exact remainder of the truncating division, NaN for an infinite
+dividend or zero divisor, the dividend for an infinite divisor, signed zeros), every parser version, all
+operands. -/
+theorem mod_double_eq_spec (R : Rounding) (v : Ver) (x y : Dbl) :
     (opMod R v (.dbl x) (.dbl y)).map absNum = specBin R .mod (.double x) (.double y) :=
-  mod_dbl_eq_spec_partial R v x y hk
+  mod_dbl_eq_spec R v x y
 
-/-- F06x witness (kernel-checked, any rounding): XPath 1.0, 5 mod INF is NaN, the specification says 5. -/
-theorem mod_double_fails_v10 (R : Rounding) :
-    trigF06x R .v10 .mod (.dbl (.fin 5)) (.dbl (.inf false)) = true ∧
-    (opMod R .v10 (.dbl (.fin 5)) (.dbl (.inf false))).map absNum = .ok (.double .nan) ∧
-    specBin R .mod (.double (.fin 5)) (.double (.inf false)) = .ok (.double (.fin 5)) := by
-  refine ⟨rfl, rfl, rfl⟩
-
-/-- the hypothesis of the partial theorem is satisfiable: -6.5 mod 4 = -2.5 in every version -/
-example : trigF06x ieee .v10 .mod (.dbl (.fin (-13/2))) (.dbl (.fin 4)) = false ∧
-    opMod ieee .v10 (.dbl (.fin (-13/2))) (.dbl (.fin 4)) = .ok (.dbl (.fin (-5/2))) := by
+/-- test (literals): -6.5 mod 4 = -2.5, 5 mod INF = 5 also with the XPath 1.0 parser -/
+example : opMod ieee .v10 (.dbl (.fin (-13/2))) (.dbl (.fin 4)) = .ok (.dbl (.fin (-5/2))) ∧
+    opMod ieee .v10 (.dbl (.fin 5)) (.dbl (.inf false)) = .ok (.dbl (.fin 5)) := by
   refine ⟨by decide +kernel, by decide +kernel⟩
 
 /-! ## Result types -/
@@ -151,37 +143,21 @@ theorem type_promotion_table (R : Rounding) (a b r : Num) :
 theorem idiv_type (R : Rounding) (a b r : Num) (h : opIdiv R a b = .ok r) : numTy r = .integer :=
   type_idiv R a b r h
 
-/-- PARTIAL (known finding F06t): `div` returns the type of XPath 3.1 B.2 (xs:decimal for two integers,
-else the promoted type) — except in the zero-divisor branch with xs:float operands, which returns an
-xs:double.  Full statement (false): without `hk`. -/
-theorem div_type_partial (R : Rounding) (v : Ver) (hv : v ≠ .v10) (a b r : Num) (h : opDiv R v a b = .ok r)
-    (hk : trigF06t R v .div a b = false) : numTy r = resultTy .div (numTy a) (numTy b) :=
-  type_div_partial R v hv a b r h hk
+/-- `div` returns the type of XPath 3.1 B.2 (xs:decimal for two integers, else the promoted type), the
+zero-divisor results (±INF, NaN) included. -/
+theorem div_type (R : Rounding) (v : Ver) (hv : v ≠ .v10) (a b r : Num) (h : opDiv R v a b = .ok r) :
+    numTy r = resultTy .div (numTy a) (numTy b) :=
+  type_div R v hv a b r h
 
-/-- PARTIAL (known finding F06t): `mod` returns the promoted type — except for a zero divisor with
-xs:float operands (xs:double NaN) and for `a mod ±INF`, which returns `a` unpromoted. -/
-theorem mod_type_partial (R : Rounding) (v : Ver) (hv : v ≠ .v10) (a b r : Num) (h : opMod R v a b = .ok r)
-    (hk : trigF06t R v .mod a b = false) : numTy r = resultTy .mod (numTy a) (numTy b) :=
-  type_mod_partial R v hv a b r h hk
+/-- `mod` returns the promoted type, the NaN of a zero divisor and `a mod ±INF` included. -/
+theorem mod_type (R : Rounding) (v : Ver) (a b r : Num) (h : opMod R v a b = .ok r) :
+    numTy r = resultTy .mod (numTy a) (numTy b) :=
+  type_mod R v a b r h
 
-/-- F06t witnesses (kernel-checked, any rounding): `5 mod xs:double('INF')` is the xs:integer 5,
-`xs:float('1') div 0` is an xs:double. -/
-theorem type_fails_mod_inf :
-    trigF06t ieee .v20 .mod (.int 5) (.dbl (.inf false)) = true ∧
-    opMod ieee .v20 (.int 5) (.dbl (.inf false)) = .ok (.int 5) ∧
-    resultTy .mod (numTy (.int 5)) (numTy (.dbl (.inf false))) = .double := by
-  refine ⟨by decide +kernel, by decide +kernel, by decide +kernel⟩
-
-theorem type_fails_float_div_zero (R : Rounding) :
-    trigF06t R .v20 .div (.flt (.fin 1)) (.int 0) = true ∧
-    opDiv R .v20 (.flt (.fin 1)) (.int 0) = .ok (.dbl (.inf false)) ∧
-    resultTy .div (numTy (.flt (.fin 1))) (numTy (.int 0)) = .float := by
-  refine ⟨rfl, rfl, rfl⟩
-
-/-- the hypothesis of the partial type theorems is satisfiable on a non-trivial state -/
-example (R : Rounding) : trigF06t R .v20 .mod (.dbl (.fin 7)) (.dbl (.inf true)) = false ∧
-    opMod R .v20 (.dbl (.fin 7)) (.dbl (.inf true)) = .ok (.dbl (.fin 7)) := by
-  refine ⟨rfl, rfl⟩
+/-- tests (literals): `5 mod xs:double('INF')` is the xs:double 5, `xs:float('1') div 0` an xs:float INF -/
+example : opMod ieee .v20 (.int 5) (.dbl (.inf false)) = .ok (.dbl (.fin 5)) ∧
+    opDiv ieee .v20 (.flt (.fin 1)) (.int 0) = .ok (.flt (.inf false)) := by
+  refine ⟨by decide +kernel, by decide +kernel⟩
 
 /-! ## Rounding functions -/
 
@@ -199,7 +175,7 @@ theorem round_half_even_spec (x : Rat) (p : Int) :
   quantize_rhe_eq x p
 
 /-- PARTIAL (known finding F06p): fn:round on an xs:decimal returns the F&O value — unless the rounded
-coefficient needs more than 28 digits (then `quantize` raises and the code rounds to an integer). -/
+coefficient needs more than 2000 digits (the local decimal context since fix-c06-3; then `quantize` raises and the code rounds to an integer). -/
 theorem round_decimal_partial (R : Rounding) (n : Int) (s : Nat) (p : Int)
     (hk : trigF06p (.round p) (.dec n s) = false) :
     absNum (fnRound R (.dec n s) p) = specUn R (.round p) (.decimal (decVal n s)) :=
@@ -218,18 +194,16 @@ theorem round_double_partial (R : Rounding) (d : Dbl) (p : Int)
   show absNum (roundCore R (.dbl d) p) = _
   rw [round_dbl_eq_spec R d p hk]; rfl
 
-/-- F06p witness (kernel-checked): round(1234.5, 26) = 1234, the specification says 1234.5. -/
-theorem round_fails_large_precision (R : Rounding) :
-    trigF06p (.round 26) (.dec 12345 1) = true ∧
-    fnRound R (.dec 12345 1) 26 = .dec 1234 0 ∧
-    specUn R (.round 26) (.decimal (12345 / 10)) = .decimal (12345 / 10) := by
-  refine ⟨by decide +kernel, ?_, ?_⟩
-  · have : fnRound ieee (.dec 12345 1) 26 = .dec 1234 0 := by decide +kernel
-    exact this
-  · have : specUn ieee (.round 26) (.decimal (12345 / 10)) = .decimal (12345 / 10) := by decide +kernel
-    exact this
+/-- F06p witness (kernel-checked): beyond the 2000 digits of the local context the code still falls back to
+round-to-integer: round(1.5, 2001) = 2, the specification says 1.5; round(1234.5, 26) is now right. -/
+theorem round_fails_beyond_2000_digits :
+    trigF06p (.round 2001) (.dec 15 1) = true ∧
+    fnRound ieee (.dec 15 1) 2001 = .dec 2 0 ∧
+    trigF06p (.round 26) (.dec 12345 1) = false ∧
+    absNum (fnRound ieee (.dec 12345 1) 26) = .decimal (12345 / 10) := by
+  refine ⟨by decide +kernel, by decide +kernel, by decide +kernel, by decide +kernel⟩
 
-/-- round-half-to-even on xs:decimal (PARTIAL, F06p: 28-digit limit), xs:integer and xs:double. -/
+/-- round-half-to-even on xs:decimal (PARTIAL, F06p: 2000-digit local context), xs:integer and xs:double. -/
 theorem round_half_even_decimal_partial (R : Rounding) (n : Int) (s : Nat) (p : Int)
     (hk : trigF06p (.rhe p) (.dec n s) = false) :
     absNum (fnRhe R (.dec n s) p) = specUn R (.rhe p) (.decimal (decVal n s)) :=
@@ -296,34 +270,42 @@ example : trigF06c_bin .add (.flt (.fin (5/2))) (.flt (.fin (3/4))) = false ∧
 
 /-! ## Phase 2: mixed operands, xs:float dispatch, the decimal context, XPath 1.0 -/
 
-/-- PARTIAL (F06t, F06x): operands of mixed classes whose promoted type is xs:double (an xs:double with an
+/-- operands of mixed classes whose promoted type is xs:double (an xs:double with an
 xs:integer, xs:decimal, xs:float or xs:double): every operator returns what F&O specifies for the promoted
 operands — integer→double and decimal→double conversions are the `R`-rounded values, then the IEEE/F&O
 dispatch.  `Faithful R`: rounding keeps the sign, never yields NaN and never rounds a non-zero integer to 0;
 `intsFinite`: no integer operand overflows binary64 (Python raises there). -/
 theorem mixed_double_ops_eq_spec (R : Rounding) (hF : Faithful R) (v : Ver) (op : BinOp) (a b : Num)
-    (h : isDbl a = true ∨ isDbl b = true) (hi : intsFinite R a b) (hwa : numWf a) (hwb : numWf b)
-    (hk : trigF06t R v op a b = false) (hx : trigF06x R v op a b = false) :
+    (h : isDbl a = true ∨ isDbl b = true) (hi : intsFinite R a b) (hwa : numWf a) (hwb : numWf b) :
     (modelBin R v op a b).map absNum = specBin R op (absNum a) (absNum b) :=
-  double_ops_eq_spec R hF v op a b h hi hwa hwb hk hx
+  double_ops_eq_spec R hF v op a b h hi hwa hwb
+
+/-- the concrete round-to-nearest-even run by the driver is `Faithful`: never NaN, sign kept, finite results
+well-formed, a non-zero integer never rounds to zero -/
+theorem ieee_rounding_faithful : Faithful ieee := ieee_faithful
+
+/-- hence the mixed-operand theorem holds for the very values the harness compares -/
+theorem mixed_double_ops_eq_spec_ieee (v : Ver) (op : BinOp) (a b : Num)
+    (h : isDbl a = true ∨ isDbl b = true) (hi : intsFinite ieee a b) (hwa : numWf a) (hwb : numWf b) :
+    (modelBin ieee v op a b).map absNum = specBin ieee op (absNum a) (absNum b) :=
+  double_ops_eq_spec ieee ieee_faithful v op a b h hi hwa hwb
 
 /-- the hypotheses are satisfiable on a mixed pair: 7 (xs:integer) mod 2.5e0 = 2.0e0 -/
-example : isDbl (.dbl (.fin (5/2))) = true ∧ trigF06t ieee .v20 .mod (.int 7) (.dbl (.fin (5/2))) = false ∧
+example : isDbl (.dbl (.fin (5/2))) = true ∧
     (modelBin ieee .v20 .mod (.int 7) (.dbl (.fin (5/2)))).map absNum = .ok (.double (.fin 2)) := by
-  refine ⟨rfl, by decide +kernel, by decide +kernel⟩
+  refine ⟨rfl, by decide +kernel⟩
 
-/-- PARTIAL (F06t; the precision itself is finding F06c): operands whose promoted type is xs:float
-(xs:float with xs:float / xs:integer / xs:decimal): every operator is the F&O operator computed with the
-rounding `implR R` (binary64 rounding followed by the `Float` clamp) where F&O rounds to binary32 —
-promotion, special values, signs of zero, error codes and the xs:float result class are as specified.
+/-- operands whose promoted type is xs:float (xs:float with xs:float / xs:integer / xs:decimal): every
+operator is the F&O operator computed with the rounding `implR R` (binary64 rounding followed by the `Float`
+clamp) where F&O rounds to binary32 — promotion, special values (zero divisors included), signs of zero,
+error codes and the xs:float result class are as specified; the precision itself is finding F06c.
 `hm`: the exact remainder is not below the flush threshold 1e-37 (else `Float` flushes it to zero). -/
-theorem float_ops_eq_spec_up_to_rounding (R : Rounding) (hF : Faithful R) (v : Ver) (hv : v ≠ .v10) (op : BinOp)
+theorem float_ops_eq_spec_up_to_rounding (R : Rounding) (hF : Faithful R) (v : Ver) (op : BinOp)
     (a b : Num) (h : floatTyped a b = true) (hi : intsFinite R a b) (hs : intsStable R a b)
-    (ha : numStable a) (hb : numStable b)
-    (hm : op = .mod → stable (fmod (asF R a) (asF R b)))
-    (hk : trigF06t R v op a b = false) :
+    (ha : numStable a) (hb : numStable b) (hwa : numWf a)
+    (hm : op = .mod → stable (fmod (asF R a) (asF R b))) :
     (modelBin R v op a b).map absNum = specBin (implR R) op (absNum a) (absNum b) :=
-  float_ops_eq_spec R hF v hv op a b h hi hs ha hb hm hk
+  float_ops_eq_spec R hF v op a b h hi hs ha hb hwa hm
 
 /-- unary minus/plus, abs, floor, ceiling, round, round-half-to-even on xs:float: the F&O function computed
 with `implR R`; the result is an xs:float -/
@@ -378,21 +360,24 @@ example : decDiv 1 0 3 0 = (3333333333333333333333333333, 28) ∧
     ctx28 12345678901234567890123456775 1 = (1234567890123456789012345678, 0) := by
   refine ⟨by decide +kernel, by decide +kernel, by decide +kernel⟩
 
-/-- PARTIAL (F06s, F06x): the XPath 1.0 parser on double and string operands: a string is converted with
-number(), then IEEE arithmetic — `+ - * div mod`, all doubles and all strings on which the implementation's
-conversion agrees with XPath 1.0 number() -/
+/-- the string→number conversion of the 1.0 parser (`XPATH1_NUMBER_PATTERN`, then `get_double`) IS XPath 1.0
+number() — optional white space, optional '-', `Digits ('.' Digits?)? | '.' Digits`, nearest double, NaN
+otherwise — for EVERY string -/
+theorem xpath10_number_eq_spec (R : Rounding) (cs : List Char) : pyNumber R cs = number10 R cs :=
+  pyNumber_eq_number10 R cs
+
+/-- the XPath 1.0 parser on double and string operands: a string is converted with number(), then IEEE
+arithmetic — `+ - * div mod`, all doubles and all strings -/
 theorem xpath10_ops_eq_spec (R : Rounding) (op : BinOp) (hop : op ≠ .idiv) (a b : Opnd)
-    (ha : isDblOpnd a = true) (hb : isDblOpnd b = true)
-    (hsa : trigF06s R a = false) (hsb : trigF06s R b = false) (hw : (opndDbl R a).wf)
-    (hx : trigF06x R .v10 op (.dbl (opndDbl R a)) (.dbl (opndDbl R b)) = false) :
+    (ha : isDblOpnd a = true) (hb : isDblOpnd b = true) (hw : (opndDbl R a).wf) :
     (model10Bin R op a b).map absNum = spec10Bin R op (absOpnd a) (absOpnd b) :=
-  v10_ops_eq_spec10 R op hop a b ha hb hsa hsb hw hx
+  v10_ops_eq_spec10 R op hop a b ha hb hw
 
 theorem xpath10_unops_eq_spec (R : Rounding) (op : UnOp)
     (hop : op = .neg ∨ op = .floor ∨ op = .ceiling ∨ op = .round 0) (a : Opnd) (ha : isDblOpnd a = true)
-    (hsa : trigF06s R a = false) (hk : trigF06p op (.dbl (opndDbl R a)) = false) :
+    (hk : trigF06p op (.dbl (opndDbl R a)) = false) :
     absNum (model10Un R op a) = spec10Un R op (absOpnd a) :=
-  v10_unops_eq_spec10 R op hop a ha hsa hk
+  v10_unops_eq_spec10 R op hop a ha hk
 
 /-- F06v witnesses (kernel-checked): integer literals of the 1.0 parser are computed exactly -/
 theorem xpath10_exact_literals_fail :
@@ -402,11 +387,6 @@ theorem xpath10_exact_literals_fail :
     trigF06v_bin ieee .mod (.num (.int 5)) (.num (.int 0)) = true ∧
     model10Bin ieee .mod (.num (.int 5)) (.num (.int 0)) = .error .FOAR0001 ∧
     spec10Bin ieee .mod (.int 5) (.int 0) = .ok (.double .nan) := v10_exact_literals_fail
-
-/-- F06s witness: `'1e3'` is 1000 for the implementation, NaN for XPath 1.0 number() -/
-theorem xpath10_string_exponent_fails :
-    trigF06s ieee (.str ['1', 'e', '3']) = true ∧ pyNumber ieee ['1', 'e', '3'] = .fin 1000 ∧
-    number10 ieee ['1', 'e', '3'] = .nan := v10_string_exponent_fails
 
 /-! ## Call sites evaluated more than once -/
 
